@@ -291,16 +291,16 @@ pub fn check_def(id: &str) -> Option<CheckDef> {
     let d = |id: &'static str, profiles: Vec<Profile>| CheckDef {
         id,
         profiles,
-        quick_runs: 20_000,
-        thorough_runs: 400_000,
+        quick_runs: 150_000,
+        thorough_runs: 4_000_000,
         hash_seeds: (1, 1),
         reencode_tail: false,
     };
     Some(match id {
         "C04" => CheckDef {
             hash_seeds: (4, 16),
-            quick_runs: 8_000,
-            thorough_runs: 100_000,
+            quick_runs: 40_000,
+            thorough_runs: 400_000,
             ..d("C04", vec![mixed_profile(), func_edit_profile(), types_profile(), special_profile()])
         },
         "C05" => CheckDef {
@@ -316,8 +316,8 @@ pub fn check_def(id: &str) -> Option<CheckDef> {
         "C12" => d("C12", vec![builder_profile()]),
         "C13" => CheckDef {
             hash_seeds: (4, 8),
-            quick_runs: 10_000,
-            thorough_runs: 150_000,
+            quick_runs: 40_000,
+            thorough_runs: 600_000,
             ..d("C13", vec![types_profile()])
         },
         "C14" => d("C14", vec![locals_profile()]),
